@@ -25,10 +25,11 @@ missed=[r for r in rows if r[1].split(' ')[0] not in r[3].split(', ')]
 out+=["","Seeds not caught by the check of the property they target: %s"%(', '.join(r[0] for r in missed) or 'none'),""]
 open(os.path.join(here,'seeded','README.md'),'w').write('\n'.join(out))
 print('seeded/README.md:',len(rows),'seeds;',len(missed),'missed by own property check')
-res=os.path.join(here,'mutants','RESULTS.txt')
-if os.path.exists(res):
+resfiles=[f for f in sorted(glob.glob(os.path.join(here,'mutants','RESULTS*.txt')))]
+if resfiles:
     latest={}
-    for l in open(res):
+    import itertools
+    for l in itertools.chain.from_iterable(open(f) for f in resfiles):
         l=l.rstrip('\n')
         if not l or ' ' not in l: continue
         name,rest=l.split(' ',1)
